@@ -4,7 +4,7 @@ set_option linter.unusedSectionVars false
 namespace Dyn
 open Queue Std
 
-variable {K U E : Type} [LT K] [LE K] [DecidableLT K] [DecidableLE K] [IsLinearOrder K] [LawfulOrderLT K] [Arith K]
+variable {K U E Λ : Type} [LT K] [LE K] [DecidableLT K] [DecidableLE K] [IsLinearOrder K] [LawfulOrderLT K] [Arith K]
 
 theorem dropDead_head_mem (l : List (Entry K E)) (x : Entry K E) (h : (dropDead l).head? = some x) :
     x ∈ l ∧ x.live = true := by
@@ -25,12 +25,12 @@ theorem nextTime_mem (q : S K E) (et : K) (h : nextTime q = some et) : ∃ x ∈
 
 /-- loop invariant of the stochastic loop; `late` (everything still queued is due no earlier than the loop's
     time) is what gives C04's "every posted event due before the end time has fired" -/
-structure StoInv (L : Loop K U E) : Prop where
+structure StoInv (L : Loop K U E Λ) : Prop where
   ex : ∃ b, G b L.s L.tr ∧ b ≤ L.t
   now : L.s.q.now ≤ L.t
   late : L.stuck = false → ∀ x ∈ L.s.q.heap, x.live = true → L.t ≤ x.time
 
-theorem stoIter_inv (P : Proc K U E) (fuel : Nat) (L : Loop K U E)
+theorem stoIter_inv (P : Proc K U E Λ) (fuel : Nat) (L : Loop K U E Λ)
     (hdt : ∀ (t a r : K), t ≤ Arith.add t (Arith.gillespieDt a r)) (hns : L.stuck = false) (h : StoInv L) :
     StoInv (stoIter P fuel L).1 := by
   obtain ⟨⟨b, g, hbt⟩, hnow, hlate⟩ := h
@@ -88,7 +88,7 @@ theorem stoIter_inv (P : Proc K U E) (fuel : Nat) (L : Loop K U E)
             · exact ⟨⟨b', g3, hb2⟩, Std.le_refl _, fun _ => hl3⟩
 
 /-- the flag "go round again" is only raised from a state that is not stuck -/
-theorem stoIter_continue (P : Proc K U E) (fuel : Nat) (L : Loop K U E) (hns : L.stuck = false)
+theorem stoIter_continue (P : Proc K U E Λ) (fuel : Nat) (L : Loop K U E Λ) (hns : L.stuck = false)
     (hc : (stoIter P fuel L).2 = true) : (stoIter P fuel L).1.stuck = false := by
   unfold stoIter at hc ⊢
   split
@@ -126,8 +126,8 @@ theorem stoIter_continue (P : Proc K U E) (fuel : Nat) (L : Loop K U E) (hns : L
               · exact hns
             · exact hns
 
-theorem runSto_inv (P : Proc K U E) (inner : Nat) (hdt : ∀ (t a r : K), t ≤ Arith.add t (Arith.gillespieDt a r)) :
-    ∀ (fuel : Nat) (L : Loop K U E), L.stuck = false → StoInv L → StoInv (runSto P inner fuel L) := by
+theorem runSto_inv (P : Proc K U E Λ) (inner : Nat) (hdt : ∀ (t a r : K), t ≤ Arith.add t (Arith.gillespieDt a r)) :
+    ∀ (fuel : Nat) (L : Loop K U E Λ), L.stuck = false → StoInv L → StoInv (runSto P inner fuel L) := by
   intro fuel
   induction fuel with
   | zero => intro L _ h; exact h
@@ -140,7 +140,7 @@ theorem runSto_inv (P : Proc K U E) (inner : Nat) (hdt : ∀ (t a r : K), t ≤ 
     · rename_i hc; exact ih _ (stoIter_continue P inner L hns hc) h1
     · exact h1
 
-theorem synIter_stuck (P : Proc K U E) (fuel : Nat) (L : Loop K U E) (hns : L.stuck = false)
+theorem synIter_stuck (P : Proc K U E Λ) (fuel : Nat) (L : Loop K U E Λ) (hns : L.stuck = false)
     (hc : (synIter P fuel L).2 = true) : (synIter P fuel L).1.stuck = false := by
   unfold synIter at hc ⊢
   split
@@ -155,8 +155,8 @@ theorem synIter_stuck (P : Proc K U E) (fuel : Nat) (L : Loop K U E) (hns : L.st
       · rename_i ht; simp [ht] at hc
       · exact hns
 
-theorem runSyn_inv (P : Proc K U E) (inner : Nat) (hone : ∀ t : K, t ≤ Arith.add t Arith.one) :
-    ∀ (fuel : Nat) (L : Loop K U E), LoopInv L → LoopInv (runSyn P inner fuel L) := by
+theorem runSyn_inv (P : Proc K U E Λ) (inner : Nat) (hone : ∀ t : K, t ≤ Arith.add t Arith.one) :
+    ∀ (fuel : Nat) (L : Loop K U E Λ), LoopInv L → LoopInv (runSyn P inner fuel L) := by
   intro fuel
   induction fuel with
   | zero => intro L h; exact h
